@@ -146,7 +146,22 @@ func chainModel(thorough bool) *chainprop.Model {
 				if cs, err := A.App.ForCheck(h); err == nil {
 					cs.State.SetBalance(world.A(world.X1), replica.Dna(123456))
 					cs.IdentityState.SetValidated(world.A(world.Z), true)
+					// every kind of pending-write buffer of a view: contract code, contract store, a new account
+					cs.State.DeployWasmContract(world.A(world.Z), []byte{0, 0x61, 0x73, 0x6d, 1, 2, 3})
+					cs.State.SetContractValue(world.A(world.Z), []byte("k"), []byte("v"))
+					cs.State.SetNonce(world.A(world.NEW2), 9)
+					cs.State.AddDelayedPenalty(world.A(world.V1))
+					cs.State.ToggleStatusSwitchAddress(world.A(world.V2))
 					cs.Commit(nil)
+				}
+			}) &&
+			spec("ForCheck+uncommitted writes", func() {
+				// the same writes left pending (a proposal that lost is simply dropped)
+				if cs, err := A.App.ForCheck(h); err == nil {
+					cs.State.DeployWasmContract(world.A(world.NEW), []byte{0, 0x61, 0x73, 0x6d, 9, 9})
+					cs.State.SetContractValue(world.A(world.NEW), []byte("k2"), []byte("v2"))
+					cs.State.SetBalance(world.A(world.X2), replica.Dna(5))
+					cs.IdentityState.SetOnline(world.A(world.V1), true)
 				}
 			}) &&
 			spec("ForCheckWithOverwrite+commit", func() {
